@@ -55,6 +55,12 @@ impl<'a> RedefinitionChecker<'a> {
         // Keys are the definition's fully-scoped identifiers, and values are references to the definitions themselves.
         let mut seen_definitions = HashMap::new();
 
+        // Stores all the members (fields, operations, parameters, and enumerators) we've seen so far, the same way.
+        // A member has the same fully-scoped identifier as a definition when a module is named like the member's
+        // container (ex: field `X` of `struct B` in `module A`, and `struct X` in `module A::B`). Only one of them can
+        // be looked up by this identifier (whichever was parsed last), so we treat this as a redefinition too.
+        let mut seen_members: HashMap<String, &dyn NamedSymbol> = HashMap::new();
+
         for node in ast.as_slice() {
             // We only check `Entity`s so as to exclude any Slice elements which don't have names (and hence cannot be
             // redefined), and also to exclude modules (which are reopened, not redefined).
@@ -63,10 +69,12 @@ impl<'a> RedefinitionChecker<'a> {
             match definition.concrete_entity() {
                 Entities::Struct(struct_def) => {
                     self.check_if_redefined(struct_def, &mut seen_definitions);
+                    self.check_if_redefined_by(struct_def, &seen_members);
                     self.check_contents_for_redefinitions(struct_def.contents());
                 }
                 Entities::Interface(interface_def) => {
                     self.check_if_redefined(interface_def, &mut seen_definitions);
+                    self.check_if_redefined_by(interface_def, &seen_members);
                     self.check_contents_for_redefinitions(interface_def.contents());
 
                     for operation in interface_def.operations() {
@@ -76,6 +84,7 @@ impl<'a> RedefinitionChecker<'a> {
                 }
                 Entities::Enum(enum_def) => {
                     self.check_if_redefined(enum_def, &mut seen_definitions);
+                    self.check_if_redefined_by(enum_def, &seen_members);
                     self.check_contents_for_redefinitions(enum_def.contents());
 
                     for enumerator in enum_def.enumerators() {
@@ -84,13 +93,19 @@ impl<'a> RedefinitionChecker<'a> {
                 }
                 Entities::CustomType(custom_type) => {
                     self.check_if_redefined(custom_type, &mut seen_definitions);
+                    self.check_if_redefined_by(custom_type, &seen_members);
                 }
                 Entities::TypeAlias(type_alias) => {
                     self.check_if_redefined(type_alias, &mut seen_definitions);
+                    self.check_if_redefined_by(type_alias, &seen_members);
                 }
 
-                // No need to check `Field`, `Enumerator`, `Operation`, or `Parameter`; We just check their containers.
-                Entities::Field(_) | Entities::Enumerator(_) | Entities::Operation(_) | Entities::Parameter(_) => {}
+                // Members are checked against each other through their containers (above).
+                // Here we only check them against the module-scoped definitions.
+                Entities::Field(member) => self.check_member(member, &seen_definitions, &mut seen_members),
+                Entities::Enumerator(member) => self.check_member(member, &seen_definitions, &mut seen_members),
+                Entities::Operation(member) => self.check_member(member, &seen_definitions, &mut seen_members),
+                Entities::Parameter(member) => self.check_member(member, &seen_definitions, &mut seen_members),
             }
         }
     }
@@ -119,6 +134,26 @@ impl<'a> RedefinitionChecker<'a> {
             // This is the first time we've seen this identifier, so we add it to the map.
             already_seen.insert(scoped_identifier, definition);
         }
+    }
+
+    /// Checks if the provided `definition` has the same scoped identifier as an entry in the `others` map.
+    /// If it does, we report a redefinition error.
+    fn check_if_redefined_by(&mut self, definition: &dyn NamedSymbol, others: &HashMap<String, &dyn NamedSymbol>) {
+        if let Some(other_definition) = others.get(&definition.parser_scoped_identifier()) {
+            self.report_redefinition_error(definition, *other_definition);
+        }
+    }
+
+    /// Checks if the provided `member` has the same scoped identifier as a module-scoped definition we've already seen.
+    /// If it does, we report a redefinition error. Either way, we remember the member for the definitions yet to come.
+    fn check_member<'b>(
+        &mut self,
+        member: &'b impl NamedSymbol,
+        seen_definitions: &HashMap<String, &'b dyn NamedSymbol>,
+        seen_members: &mut HashMap<String, &'b dyn NamedSymbol>,
+    ) {
+        self.check_if_redefined_by(member, seen_definitions);
+        seen_members.entry(member.parser_scoped_identifier()).or_insert(member);
     }
 
     fn report_redefinition_error(&mut self, new: &dyn NamedSymbol, original: &dyn NamedSymbol) {
